@@ -650,11 +650,17 @@ func (c *Ctx) c14Exit() {
 	r := c.R
 	r.Rule("C14-9", "exit path: in main every error branch prints on os.Stderr and reaches os.Exit with a non-zero constant; in Run/Parse/CreateFunctions/CreateFunction/GenerateBaseCode/Generate a success return is reachable only on the nil edge of every error-returning call it passed; parseMethods succeeds only if it produced an entry for every method of the method set")
 	if mf := c.mainFunc(); mf != nil {
-		exits := c.CallsIn(mf, "os.Exit", false)
-		r.Floor("C14-9", "os.Exit calls in main", len(exits), 2)
+		// exit sites: os.Exit calls in package main (main itself or a helper such as exitOnError(err))
+		var exits []Site
+		for _, s := range c.CallsTo("os.Exit") {
+			if s.Fn.Pkg == mf.Pkg {
+				exits = append(exits, s)
+			}
+		}
+		r.Floor("C14-9", "os.Exit calls in package main", len(exits), 1)
 		for i, s := range exits {
 			code, isK := constInt(c.O.Of(s.Args()[0]))
-			r.Check("C14-9", sprintf("main.main:exit%d:non-zero", i+1), c.Pos(s.Pos()), isK && code != 0, "error exit with status "+c.O.Of(s.Args()[0]).String())
+			r.Check("C14-9", sprintf("%s:exit%d:non-zero", FnKey(s.Fn), i+1), c.Pos(s.Pos()), isK && code != 0, "error exit with status "+c.O.Of(s.Args()[0]).String())
 			// a print to os.Stderr in the same block before it
 			printed := false
 			for _, in := range s.Instr.Block().Instrs {
@@ -665,7 +671,7 @@ func (c *Ctx) c14Exit() {
 					}
 				}
 			}
-			r.Check("C14-9", sprintf("main.main:exit%d:message-on-stderr", i+1), c.Pos(s.Pos()), printed, "exit without a message on os.Stderr")
+			r.Check("C14-9", sprintf("%s:exit%d:message-on-stderr", FnKey(s.Fn), i+1), c.Pos(s.Pos()), printed, "exit without a message on os.Stderr")
 		}
 		// each error-returning call in main leads to an exit on err != nil
 		for _, b := range mf.Blocks {
@@ -680,10 +686,16 @@ func (c *Ctx) c14Exit() {
 				}
 				found := false
 				for _, s := range exits {
+					if s.Fn != mf {
+						continue
+					}
 					d := c.ReachOf(s.Instr)
 					if d.Implies(c.M(false, isNilCmp(func(t *core.Term) bool { return t.V == ssa.Value(call) }))) && len(d) > 0 {
 						found = true
 					}
+				}
+				if !found {
+					found = c.handedToExitHelper(call, exits)
 				}
 				r.Check("C14-9", "main.main:"+shortCallee(name)+":error-exits", c.Pos(call.Pos()), found, "an error of "+name+" does not lead to os.Exit")
 			}
@@ -724,9 +736,66 @@ func (c *Ctx) c14Exit() {
 				"parseMethods can report success although fewer entries than methods were produced (a converter method would be dropped silently); reach: "+d.Describe(c.O))
 		}
 		c.noDropLoop("C14-9", fn, "appending the parsed method", func(in ssa.Instruction) bool {
-			return isAppendTo(c, in, func(t *core.Term) bool { return t.Kind == "extract" && t.Args[0].IsCallTo("(*"+pPar+"Parser).parseMethod") })
-		}, c.M(false, isNilCmp(func(t *core.Term) bool { return t.Kind == "extract" && t.Name == "1" && t.Args[0].IsCallTo("(*"+pPar+"Parser).parseMethod") })))
+			return isAppendTo(c, in, func(t *core.Term) bool {
+				return t.Kind == "extract" && t.Args[0].IsCallTo("(*"+pPar+"Parser).parseMethod")
+			})
+		}, c.M(false, isNilCmp(func(t *core.Term) bool {
+			return t.Kind == "extract" && t.Name == "1" && t.Args[0].IsCallTo("(*"+pPar+"Parser).parseMethod")
+		})))
 	}
+}
+
+// handedToExitHelper: the error value is passed, in the block that produced it, to a helper of package main that
+// returns normally only when that parameter is nil (every other path ends in os.Exit).
+func (c *Ctx) handedToExitHelper(errv *ssa.Call, exits []Site) bool {
+	if errv.Referrers() == nil {
+		return false
+	}
+	for _, rf := range *errv.Referrers() {
+		hc, ok := rf.(*ssa.Call)
+		if !ok || hc.Block() != errv.Block() {
+			continue
+		}
+		h := hc.Call.StaticCallee()
+		if h == nil || h.Blocks == nil || h.Pkg != errv.Parent().Pkg {
+			continue
+		}
+		pi := -1
+		for i, a := range hc.Call.Args {
+			if a == ssa.Value(errv) {
+				pi = i
+			}
+		}
+		if pi < 0 || pi >= len(h.Params) {
+			continue
+		}
+		blocked := map[*ssa.BasicBlock]bool{}
+		for _, s := range exits {
+			if s.Fn == h {
+				blocked[s.Instr.Block()] = true
+			}
+		}
+		if len(blocked) == 0 {
+			continue
+		}
+		av := c.ReachAvoid(h, blocked)
+		pname := "param:" + h.Params[pi].Name()
+		isNil := c.M(true, isNilCmp(func(t *core.Term) bool { return t.String() == pname }))
+		okAll := true
+		for _, ret := range core.Returns(h) {
+			if blocked[ret.Block()] {
+				continue // ends in os.Exit
+			}
+			d := av.At(ret.Block())
+			if d != nil && !d.Implies(isNil) {
+				okAll = false
+			}
+		}
+		if okAll {
+			return true
+		}
+	}
+	return false
 }
 
 // failFlagClear matches the literal "F is false" for a loop-carried bool flag F of fn that starts false, is only ever
